@@ -1,7 +1,234 @@
+(* props/C19.v - property C19: fixed-width U32s<N> integers compute exactly or panic, never wrap.
+   Only statements, each closed by `exact`, each followed by Print Assumptions.
+
+   Vocabulary (spec/U32sSpec.v):  u32s_value l = sum l_i * 2^(32 i);  u32s_wf N l = N limbs, each in [0, 2^32);
+   u32s_fits N v = 0 <= v < 2^(32 N).  Model (model/U32s.v): `None` = the Rust code panics, `Rej` = it returns Err.
+   N is an arbitrary natural number in every theorem. *)
 From Coq Require Import ZArith Bool List.
-From TF Require Import Word U32sGen U32s U32sSpec U32sProofs U32sTryFromNow.
+From TF Require Import Word BFieldGen U32sGen U32s U32sSpec U32sProofs U32sTryFromNow.
 Import ListNotations.
 Open Scope Z_scope.
-Theorem C19_placeholder : u32s_value [] = 0.
-Proof. exact u32s_value_nil. Qed.
-Print Assumptions C19_placeholder.
+
+(* hypotheses are satisfiable; carries and panics do occur *)
+Example C19_ex_wf : u32s_wf 3 [4294967295; 0; 2147483648].
+Proof. split; [reflexivity|]. repeat constructor; discriminate. Qed.
+Example C19_ex_carry_chain : u32s_add [4294967295; 4294967295; 0] [1; 0; 0] = Some [0; 0; 1].
+Proof. reflexivity. Qed.
+Example C19_ex_add_overflow : u32s_add [4294967295; 4294967295] [1; 0] = None.
+Proof. reflexivity. Qed.
+Example C19_ex_borrow_chain : u32s_sub [0; 0; 1] [1; 0; 0] = Some [4294967295; 4294967295; 0].
+Proof. reflexivity. Qed.
+Example C19_ex_sub_negative : u32s_sub [0; 1] [1; 1] = None.
+Proof. reflexivity. Qed.
+Example C19_ex_mul_boundary :
+  u32s_mul [4294967295; 0] [1; 1] = Some [4294967295; 4294967295] /\ u32s_mul [0; 1] [0; 1] = None.
+Proof. split; reflexivity. Qed.
+Example C19_ex_div : u32s_rem_div [4294967294; 4294967295] [4294967295; 0] = Some ([0; 1], [4294967294; 0])
+                     /\ u32s_rem_div [5; 0] [0; 0] = None.
+Proof. split; reflexivity. Qed.
+
+(* ---------------------------------------------------------------- arithmetic: exact result or panic *)
+Theorem C19_add : forall N a b, u32s_wf N a -> u32s_wf N b ->
+  (forall r, u32s_add a b = Some r -> u32s_wf N r /\ u32s_value r = u32s_value a + u32s_value b) /\
+  (u32s_add a b = None <-> ~ u32s_fits N (u32s_value a + u32s_value b)).
+Proof. exact add_exact. Qed.
+Print Assumptions C19_add.
+
+Theorem C19_sub : forall N a b, u32s_wf N a -> u32s_wf N b ->
+  (forall r, u32s_sub a b = Some r -> u32s_wf N r /\ u32s_value r = u32s_value a - u32s_value b) /\
+  (u32s_sub a b = None <-> ~ u32s_fits N (u32s_value a - u32s_value b)).
+Proof. exact sub_exact. Qed.
+Print Assumptions C19_sub.
+
+Theorem C19_mul : forall N a b, u32s_wf N a -> u32s_wf N b ->
+  (forall r, u32s_mul a b = Some r -> u32s_wf N r /\ u32s_value r = u32s_value a * u32s_value b) /\
+  (u32s_mul a b = None <-> ~ u32s_fits N (u32s_value a * u32s_value b)).
+Proof. exact mul_exact. Qed.
+Print Assumptions C19_mul.
+
+(* rem_div panics exactly on a zero divisor - so none of its internal mul_two / set_bit / get_bit / sub calls ever
+   panics - and otherwise returns the Euclidean quotient and remainder *)
+Theorem C19_rem_div : forall N a d, u32s_wf N a -> u32s_wf N d ->
+  (u32s_rem_div a d = None <-> u32s_value d = 0) /\
+  (forall q r, u32s_rem_div a d = Some (q, r) ->
+     u32s_wf N q /\ u32s_wf N r /\
+     u32s_value a = u32s_value q * u32s_value d + u32s_value r /\ 0 <= u32s_value r < u32s_value d /\
+     u32s_value q = u32s_value a / u32s_value d /\ u32s_value r = u32s_value a mod u32s_value d).
+Proof. exact rem_div_exact. Qed.
+Print Assumptions C19_rem_div.
+
+Theorem C19_div : forall N a d, u32s_wf N a -> u32s_wf N d ->
+  (u32s_div a d = None <-> u32s_value d = 0) /\
+  (forall q, u32s_div a d = Some q -> u32s_wf N q /\ u32s_value q = u32s_value a / u32s_value d).
+Proof. exact div_exact. Qed.
+Print Assumptions C19_div.
+
+Theorem C19_rem : forall N a d, u32s_wf N a -> u32s_wf N d ->
+  (u32s_rem a d = None <-> u32s_value d = 0) /\
+  (forall r, u32s_rem a d = Some r -> u32s_wf N r /\ u32s_value r = u32s_value a mod u32s_value d).
+Proof. exact rem_exact. Qed.
+Print Assumptions C19_rem.
+
+Theorem C19_mul_two : forall N a, u32s_wf N a ->
+  (forall r, u32s_mul_two a = Some r -> u32s_wf N r /\ u32s_value r = 2 * u32s_value a) /\
+  (u32s_mul_two a = None <-> ~ u32s_fits N (2 * u32s_value a)).
+Proof. exact mul_two_exact. Qed.
+Print Assumptions C19_mul_two.
+
+Theorem C19_div_two : forall N a, u32s_wf N a ->
+  u32s_wf N (u32s_div_two a) /\ u32s_value (u32s_div_two a) = u32s_value a / 2.
+Proof. exact div_two_spec. Qed.
+Print Assumptions C19_div_two.
+
+Theorem C19_sum : forall N ls, Forall (u32s_wf N) ls ->
+  (forall r, u32s_sum N ls = Some r -> u32s_wf N r /\ u32s_value r = sum_values ls) /\
+  (u32s_sum N ls = None <-> ~ u32s_fits N (sum_values ls)).
+Proof. exact sum_exact. Qed.
+Print Assumptions C19_sum.
+
+(* ---------------------------------------------------------------- comparison, equality, constants *)
+Theorem C19_cmp : forall N a b, u32s_wf N a -> u32s_wf N b ->
+  u32s_cmp a b = (u32s_value a ?= u32s_value b).
+Proof. exact cmp_spec. Qed.
+Print Assumptions C19_cmp.
+
+Theorem C19_ge : forall N a b, u32s_wf N a -> u32s_wf N b ->
+  u32s_ge a b = (u32s_value b <=? u32s_value a).
+Proof. exact ge_spec. Qed.
+Print Assumptions C19_ge.
+
+Theorem C19_eq : forall N a b, u32s_wf N a -> u32s_wf N b ->
+  u32s_eqb a b = (u32s_value a =? u32s_value b).
+Proof. exact eqb_spec. Qed.
+Print Assumptions C19_eq.
+
+Theorem C19_value_injective : forall N a b, u32s_wf N a -> u32s_wf N b -> u32s_value a = u32s_value b -> a = b.
+Proof. exact wf_value_inj. Qed.
+Print Assumptions C19_value_injective.
+
+Theorem C19_zero : forall N, u32s_wf N (u32s_zero N) /\ u32s_value (u32s_zero N) = 0.
+Proof. exact (fun N => conj (zero_wf N) (zero_value N)). Qed.
+Print Assumptions C19_zero.
+
+Theorem C19_is_zero : forall l, Forall limb l -> u32s_is_zero l = true <-> u32s_value l = 0.
+Proof. exact is_zero_spec. Qed.
+Print Assumptions C19_is_zero.
+
+Theorem C19_one : forall N,
+  (forall r, u32s_one N = Some r -> u32s_wf N r /\ u32s_value r = 1) /\ (u32s_one N = None <-> ~ u32s_fits N 1).
+Proof. exact one_exact. Qed.
+Print Assumptions C19_one.
+
+(* ---------------------------------------------------------------- conversions from primitive integers *)
+Theorem C19_from_u32 : forall N n, N <> 0%nat -> 0 <= n < 2 ^ 32 ->
+  exists r, u32s_from_u32 N n = Some r /\ u32s_wf N r /\ u32s_value r = n.
+Proof. exact from_u32_exact. Qed.
+Print Assumptions C19_from_u32.
+
+(* TryFrom<u64>, about the regenerated guard: succeeds iff the value fits, for every width N >= 1 *)
+Theorem C19_try_from_u64 : forall N v, N <> 0%nat -> 0 <= v < 2 ^ 64 ->
+  (u32s_fits N v -> exists r, u32s_try_from_u64 N v = Done r /\ u32s_wf N r /\ u32s_value r = v) /\
+  (~ u32s_fits N v -> u32s_try_from_u64 N v = Rej).
+Proof. exact try_from_u64_spec. Qed.
+Print Assumptions C19_try_from_u64.
+
+(* guard expressions themselves never overflow (release = checked) *)
+Theorem C19_try_from_guards_ok : forall N v,
+  tryfrom_u64_rejects_ok N v = true /\ tryfrom_u128_rejects_ok N v = true.
+Proof. exact tryfrom_guards_ok. Qed.
+Print Assumptions C19_try_from_guards_ok.
+
+(* TryFrom<u128>: the full statement ... *)
+Definition C19_try_from_u128_full : Prop := forall N v, N <> 0%nat -> 0 <= v < 2 ^ 128 ->
+  (u32s_fits N v -> exists r, u32s_try_from_u128 N v = Done r /\ u32s_wf N r /\ u32s_value r = v) /\
+  (~ u32s_fits N v -> u32s_try_from_u128 N v = Rej).
+
+(* ======================================================================================== [CURRENT] begin *)
+(* ... is REFUTED on the pinned tree by the faithful model (finding key u32s3-tryfrom-u128-bound): *)
+Theorem C19_try_from_u128_refuted :
+  exists v, 0 <= v < 2 ^ 128 /\ u32s_fits 3 v /\ u32s_try_from_u128 3 v = Rej.
+Proof. exact try_from_u128_refuted_now. Qed.
+Print Assumptions C19_try_from_u128_refuted.
+
+(* exact extent of the defect: everything strictly between u64::MAX * u32::MAX and 2^96 *)
+Theorem C19_try_from_u128_gap : forall v, 18446744073709551615 * 4294967295 < v < 2 ^ 96 ->
+  u32s_fits 3 v /\ u32s_try_from_u128 3 v = Rej.
+Proof. exact try_from_u128_gap_now. Qed.
+Print Assumptions C19_try_from_u128_gap.
+
+(* what does hold today: exact for every N >= 1 and every v outside that gap *)
+Theorem C19_try_from_u128_partial : forall N v, N <> 0%nat -> 0 <= v < 2 ^ 128 ->
+  (N = 3%nat -> v <= 18446744073709551615 * 4294967295 \/ 2 ^ 96 <= v) ->
+  (u32s_fits N v -> exists r, u32s_try_from_u128 N v = Done r /\ u32s_wf N r /\ u32s_value r = v) /\
+  (~ u32s_fits N v -> u32s_try_from_u128 N v = Rej).
+Proof. exact try_from_u128_spec_now. Qed.
+Print Assumptions C19_try_from_u128_partial.
+(* ======================================================================================== [CURRENT] end *)
+
+(* ======================================================================================== [FIXED] begin
+  Theorem C19_try_from_u128 : C19_try_from_u128_full.
+  Proof. exact try_from_u128_spec. Qed.
+  Print Assumptions C19_try_from_u128.
+   ======================================================================================== [FIXED] end *)
+
+(* width 0 (finding key u32s0-tryfrom-zero, recorded, not repaired): 0 is the one value of U32s<0>, yet TryFrom rejects
+   it and From<u32> panics; hence the hypothesis N <> 0 in the conversion theorems above *)
+Theorem C19_try_from_u64_width0_refuted :
+  exists v, 0 <= v < 2 ^ 64 /\ u32s_fits 0 v /\ u32s_try_from_u64 0 v = Rej.
+Proof. exact try_from_u64_width0_refuted. Qed.
+Print Assumptions C19_try_from_u64_width0_refuted.
+
+Theorem C19_try_from_u128_width0_refuted :
+  exists v, 0 <= v < 2 ^ 128 /\ u32s_fits 0 v /\ u32s_try_from_u128 0 v = Rej.
+Proof. exact try_from_u128_width0_refuted. Qed.
+Print Assumptions C19_try_from_u128_width0_refuted.
+
+Theorem C19_from_u32_width0_refuted :
+  exists n, 0 <= n < 2 ^ 32 /\ u32s_fits 0 n /\ u32s_from_u32 0 n = None.
+Proof. exact from_u32_width0_refuted. Qed.
+Print Assumptions C19_from_u32_width0_refuted.
+
+(* ---------------------------------------------------------------- big integers *)
+Theorem C19_to_big : forall l, u32s_to_big l = u32s_value l.
+Proof. exact to_big_spec. Qed.
+Print Assumptions C19_to_big.
+
+Theorem C19_from_big : forall N v, u32s_fits N v ->
+  exists l, u32s_from_big N v = Some l /\ u32s_wf N l /\ u32s_value l = v.
+Proof. exact from_big_fits. Qed.
+Print Assumptions C19_from_big.
+
+Theorem C19_big_round_trip : forall N l, u32s_wf N l -> u32s_from_big N (u32s_to_big l) = Some l.
+Proof. exact big_round_trip. Qed.
+Print Assumptions C19_big_round_trip.
+
+Theorem C19_big_round_trip_value : forall N v, u32s_fits N v ->
+  exists l, u32s_from_big N v = Some l /\ u32s_wf N l /\ u32s_to_big l = v.
+Proof. exact big_round_trip_value. Qed.
+Print Assumptions C19_big_round_trip_value.
+
+(* ---------------------------------------------------------------- field-element arrays and the codec *)
+Theorem C19_to_bfes : forall l, Forall limb l ->
+  length (u32s_to_bfes l) = length l /\ map bfe_value (u32s_to_bfes l) = l.
+Proof. exact to_bfes_spec. Qed.
+Print Assumptions C19_to_bfes.
+
+Theorem C19_bfes_round_trip : forall N l, u32s_wf N l -> u32s_decode N (u32s_to_bfes l) = Done l.
+Proof. exact bfes_round_trip. Qed.
+Print Assumptions C19_bfes_round_trip.
+
+Theorem C19_codec_round_trip : forall N l, u32s_wf N l -> u32s_decode N (u32s_encode l) = Done l.
+Proof. exact codec_round_trip. Qed.
+Print Assumptions C19_codec_round_trip.
+
+Theorem C19_static_length : forall N l, u32s_wf N l -> Some (length (u32s_encode l)) = u32s_static_length N.
+Proof. exact encode_length. Qed.
+Print Assumptions C19_static_length.
+
+(* decoding is total (never `Pan`), strict and exact: it succeeds iff there are exactly N elements, all <= u32::MAX *)
+Theorem C19_decode : forall N s, Forall (fun w => 0 <= bfe_value w) s ->
+  if (length s =? N)%nat && forallb (fun w => bfe_value w <=? U32_MAX) s
+  then u32s_decode N s = Done (map bfe_value s) /\ u32s_wf N (map bfe_value s)
+  else u32s_decode N s = Rej.
+Proof. exact decode_spec. Qed.
+Print Assumptions C19_decode.
